@@ -278,7 +278,7 @@ def run_ro(v, seed, iters, timeout=600):
     st = Symtab(v["lib"])
     rc, out = sh([v["ro_exe"], "ro", str(seed), str(iters)], timeout=timeout)
     res = {"stores": [], "diffs": [], "crashes": [], "summary": "", "rc": rc, "raw_tail": out[-1500:], "segments": [],
-           "parts": None, "parts_outside": [], "values": {}, "closure": {}, "closure_bad": []}
+           "parts": None, "parts_outside": [], "values": {}, "closure": {}, "closure_bad": [], "probes": []}
     seen = set()
     canary_store, canary_diff = set(), set()
     for line in out.split("\n"):
@@ -313,6 +313,11 @@ def run_ro(v, seed, iters, timeout=600):
             res["segments"].append(line[4:])
         elif line.startswith("PARTS "):
             res["parts"] = {k: int(x) for k, x in (kv.split("=") for kv in line.split()[1:])}
+        elif line.startswith("PROBE "):
+            m = re.match(r"PROBE (\S+) type=(.*) op=(\S+) (?:sig=(\d+)|survived rc=(-?\d+))$", line)
+            if m:
+                res["probes"].append({"probe": m.group(1), "type": m.group(2), "op": m.group(3), "sig": int(m.group(4)) if m.group(4) else None,
+                                      "rc": int(m.group(5)) if m.group(5) else None})
         elif line.startswith("CLOSURE "):
             kv = dict(x.split("=", 1) for x in line.split()[1:])
             res["closure"][kv["when"]] = {"words_pointing_into_library": int(kv["words_pointing_into_library"]),
